@@ -133,7 +133,7 @@ def pick_by_name(out, name):
     return out[name.split(".")[-1]]
 
 
-def _body(fname: str, outputs: tuple, internal, kw: dict, none_mod=None, as_dict=False):
+def _body(fname: str, outputs: tuple, internal, kw: dict, none_mod=None, as_dict=False, as_list=False):
     s = f"{fname}(" + ",".join(f"{k}={fz(v)}" for k, v in sorted(kw.items())) + ")"
     if _LOG is not None:
         _LOG.append((fname, s))
@@ -152,7 +152,7 @@ def _body(fname: str, outputs: tuple, internal, kw: dict, none_mod=None, as_dict
             arr = np.empty(tuple(internal), dtype=object)
             for t in itertools.product(*[range(d) for d in internal]):
                 arr[t] = f"{tag}<{','.join(map(str, t))}>"
-            return arr
+            return arr.tolist() if as_list else arr
         return tag
     if len(outputs) == 1:
         return None if returns_none(s, none_mod) else one(s)
@@ -166,7 +166,7 @@ def make_callable(f: dict):
     params = list(f["params"])
     sig = ", ".join(params)
     kw = ", ".join(f"{p}={p}" for p in params)
-    src = f"def {f['name']}({sig}):\n    from rtc.progs import _body\n    return _body({f['name']!r}, {tuple(f['outputs'])!r}, {f.get('internal')!r}, dict({kw}), {f.get('none_mod')!r}, {bool(f.get('picker'))!r})\n"
+    src = f"def {f['name']}({sig}):\n    from rtc.progs import _body\n    return _body({f['name']!r}, {tuple(f['outputs'])!r}, {f.get('internal')!r}, dict({kw}), {f.get('none_mod')!r}, {bool(f.get('picker'))!r}, {bool(f.get('as_list'))!r})\n"
     ns: dict = {}
     exec(src, ns)  # noqa: S102
     fn = ns[f["name"]]
@@ -184,7 +184,7 @@ def build_pipeline(prog: dict, order: list[int] | None = None, **pipeline_kw):
         kw: dict[str, Any] = {}
         if f.get("spec") is not None:
             kw["mapspec"] = ref.canonical_str(f["spec"])
-        if f.get("internal") and not f.get("internal_via_map"):
+        if f.get("internal") and not f.get("internal_via_map") and f.get("spec") is not None:
             kw["internal_shape"] = tuple(f["internal"])
         if f.get("defaults"):
             kw["defaults"] = dict(f["defaults"])
@@ -203,7 +203,8 @@ def map_kwargs(prog: dict) -> dict:
     for one internal axis, which the API allows)."""
     shapes = {}
     for f in prog["funcs"]:
-        if f.get("internal") and f.get("internal_via_map"):
+        if f.get("internal") and (f.get("internal_via_map") or f.get("plain_array")):
+            # (the shape of an array returned whole by a function without a MapSpec is declared to map)
             for o in f["outputs"]:
                 shapes[o] = f["internal"][0] if len(f["internal"]) == 1 and f.get("internal_bare_int") else tuple(f["internal"])
     return {"internal_shapes": shapes} if shapes else {}
@@ -400,6 +401,7 @@ def gen_map_program(rng: random.Random, n_funcs: int = 2, max_rank: int = 2, all
         arrays[r] = axes
         inputs[r] = {"shape": tuple(size_of(a) for a in axes), "kind": rng.choice(["ndarray", "list"]) if rank == 1 else "ndarray"}
     produced_plain: list[str] = []  # outputs without array structure (reductions)
+    plain_arrays: set[str] = set()  # arrays returned whole by a function without a MapSpec
     for q in range(n_funcs):
         name = f"f{q}"
         cands = list(arrays)
@@ -418,6 +420,23 @@ def gen_map_program(rng: random.Random, n_funcs: int = 2, max_rank: int = 2, all
             for o in outs:
                 arrays[o] = (ix,)
             continue
+        if allow_nomapspec and 0.08 <= kind < 0.15 and n_out == 1:
+            # a function without a MapSpec that returns a whole array (rank 1-2), which later functions map over: the
+            # library generates "... -> v[i, j]" for it from its consumers' MapSpecs
+            free = [i for i in IDX if i not in sizes]
+            rk = rng.choice((1, 2))
+            if len(free) >= rk:
+                new_ix = free[:rk]
+                for ix in new_ix:
+                    sizes[ix] = rng.choice(pool)
+                prm = [p for p in (list(inputs) + produced_plain) if rng.random() < 0.4][:2]
+                funcs.append({"name": name, "params": prm, "outputs": outs, "spec": None,
+                              "internal": tuple(sizes[ix] for ix in new_ix), "plain_array": True,
+                              # (a nested list cannot be indexed by a tuple key: only 1-d values are also returned as a list)
+                              "as_list": rk == 1 and rng.random() < 0.4})
+                arrays[outs[0]] = tuple(new_ix)
+                plain_arrays.add(outs[0])
+                continue
         k = rng.randint(1, min(2, len(cands)))
         params = rng.sample(cands, k)
         if allow_nomapspec and kind > 0.85:
@@ -531,5 +550,7 @@ def describe(prog: dict) -> dict:
                        "internal_bare_int": f.get("internal_bare_int", False), **({"defaults": f["defaults"]} if f.get("defaults") else {}),
                        **({"bound": f["bound"]} if f.get("bound") else {}),
                        **({"none_mod": f["none_mod"]} if f.get("none_mod") else {}),
-                       **({"picker": True} if f.get("picker") else {})} for f in prog["funcs"]],
+                       **({"picker": True} if f.get("picker") else {}),
+                       **({"plain_array": True, "as_list": bool(f.get("as_list"))} if f.get("plain_array") else {})}
+                      for f in prog["funcs"]],
             "inputs": prog["inputs"]}
